@@ -114,13 +114,31 @@ func cmdUnits(args []string) {
 	}
 	fmt.Printf("loaded in %.1fs\n", time.Since(t0).Seconds())
 	units := p.unitsFor(fs.Args())
+	for _, ax := range p.Axioms {
+		if ax.Lemma {
+			for _, pat := range fs.Args() {
+				if matchPattern(pat, "lemma."+ax.Name) {
+					units = append(units, &Unit{Name: "lemma." + ax.Name, HasSpec: true, Short: "lemma"})
+				}
+			}
+		}
+	}
 	s := newSolver(*out, *timeout)
 	bad := 0
 	for _, u := range units {
 		if !u.HasSpec {
 			continue
 		}
-		res := verifyUnit(p, u)
+		var res *UnitResult
+		if u.Short == "lemma" {
+			for _, ax := range p.Axioms {
+				if "lemma."+ax.Name == u.Name {
+					res = verifyLemma(p, ax)
+				}
+			}
+		} else {
+			res = verifyUnit(p, u)
+		}
 		if res.Skipped != "" {
 			fmt.Printf("%-60s ASSUMED (%s)\n", u.Name, res.Skipped)
 			continue
